@@ -194,7 +194,10 @@ harness(void)
 	V_ASSERT(ret == 0 || ret == -1, "C15: create_system returns 0 or -1");
 
 	/* ---- reference: contradictions visible while the hierarchy is created (order-free) */
-	int hard = 0, soft = 0, nthreads = 0;
+	/* idx_clash: the same CPU index bound to two physical ids.  It is a contradiction of the statement;
+	 * the emulator may refuse it here (load_cpus, since the fix 1df82c9) or later in loom_init_end
+	 * (sys_order / sys_init obligations), so at this stage a refusal is allowed but not demanded. */
+	int hard = 0, soft = 0, nthreads = 0, idx_clash = 0;
 	for (int i = 0; i < NS; i++) {
 		if (IN.part[i] == 0) hard = 1;
 		if (!is_thread(i)) continue;
@@ -216,11 +219,17 @@ harness(void)
 			if (same_loom(i, j) && IN.has_cpus[i] && IN.has_cpus[j])
 				for (int k = 0; k < NC; k++)
 					for (int m = 0; m < NC; m++)
-						if (k < IN.ncpu[i] && m < IN.ncpu[j] && IN.phy[i][k] == IN.phy[j][m] && IN.idx[i][k] != IN.idx[j][m]) hard = 1;
+						{
+							if (k < IN.ncpu[i] && m < IN.ncpu[j] && IN.phy[i][k] == IN.phy[j][m] && IN.idx[i][k] != IN.idx[j][m]) hard = 1;
+							if (k < IN.ncpu[i] && m < IN.ncpu[j] && IN.phy[i][k] != IN.phy[j][m] && IN.idx[i][k] == IN.idx[j][m]) idx_clash = 1;
+						}
 		}
 		for (int k = 0; k < NC; k++)
 			for (int m = 0; m < NC; m++)
+			{
 				if (IN.has_cpus[i] && k < IN.ncpu[i] && m < IN.ncpu[i] && IN.phy[i][k] == IN.phy[i][m] && IN.idx[i][k] != IN.idx[i][m]) hard = 1;
+				if (IN.has_cpus[i] && k < IN.ncpu[i] && m < IN.ncpu[i] && IN.phy[i][k] != IN.phy[i][m] && IN.idx[i][k] == IN.idx[i][m]) idx_clash = 1;
+			}
 	}
 	if (hard) {
 		V_ASSERT(ret == -1, "C15: contradictory or incomplete stream metadata is refused while the hierarchy is created");
@@ -228,11 +237,11 @@ harness(void)
 		return;
 	}
 	if (ret == -1) {
-		V_ASSERT(soft, "C15: create_system refuses only contradictory, incomplete or out-of-domain metadata");
+		V_ASSERT(soft || idx_clash, "C15: create_system refuses only contradictory, incomplete or out-of-domain metadata");
 		V_REACH("refused: outside the statement's domain");
 		return;
 	}
-	if (soft) return;
+	if (soft || idx_clash) return;
 	V_REACH("accepted");
 
 	/* ---- accepted: the hierarchy is exactly the union */
